@@ -354,6 +354,11 @@ m('outdef-hint-early','C06',['OUT-DEF'],'constraint/blueprint_hint.go','''	lenIn
 		return
 	}
 	if cap(h.Inputs) >= lenInputs {''',note='fast path for input-less hints leaves HintMapping.Inputs of the previous instruction in the scratch object')
+m('emuflag-reduce','C12',['EMU-FLAG'],'std/math/emulated/field_reduce.go','''	// slow path - use hint to reduce value
+	return f.mulMod(a, f.One(), 0, nil)''','''	// slow path - use hint to reduce value
+	res := f.mulMod(a, f.One(), 0, nil)
+	res.modReduced = strict
+	return res''',note='strict reduction marks the hinted remainder as reduced without comparing it with the modulus')
 json.dump({'comment':'selftest mutants: each patch breaks one rule instance and must be detected by the listed rule(s) of its property; produced by tools/make_selftest.py','mutants':M}, open(os.path.join(root,'selftest','mutants.json'),'w'), indent=1)
 subprocess.run(['git','-C','/repo','worktree','remove','--force',WT],capture_output=True)
 print(len(M),'mutants')
